@@ -521,6 +521,21 @@ func runReflect(s *scenario) {
 			case <-time.After(100 * time.Millisecond):
 			}
 		}
+		if !isDone {
+			// the reflected stream may end inside what the victim takes for a frame (its length field decodes, under the
+			// wrong key, to anything up to a full segment): the error is due once that much more has arrived - feed the
+			// reflection again, more than two maximal frames of it
+			more := append(append([]byte{}, own...), own...)
+			for len(own) > 0 && len(more) < 3*1448 {
+				more = append(more, own...)
+			}
+			vraw.Deliver(more)
+			select {
+			case e = <-done:
+				isDone = true
+			case <-time.After(5 * time.Second):
+			}
+		}
 		if isDone {
 			w.Emit(vt.Ev{"event": "End", "err": e})
 		} else {
